@@ -110,7 +110,7 @@ impl<'a> IpHeadersSlice<'a> {
             }
             IpHeadersSlice::Ipv6(v, exts) => {
                 let (_, payload_ip_number, _, _) =
-                    Ipv6Extensions::from_slice_lax(v.next_header(), exts.slice());
+                    Ipv6ExtensionsSlice::from_slice_lax(v.next_header(), exts.slice());
                 payload_ip_number
             }
         }
